@@ -183,6 +183,13 @@ def _path_to_def(body, cname):
     return None
 
 
+def pyrx_closure_args(fn, cname):
+    r = _path_to_def(fn.body, cname)
+    if r is None:
+        raise TranslateError("closure %s not found" % cname)
+    return r[1].args.args
+
+
 def _find(body, pred, what):
     hits = [n for st in body for n in ast.walk(st) if pred(n)]
     if len(hits) != 1:
@@ -252,7 +259,7 @@ def _helpers_text(tr, modfuns):
 # ---------------------------------------------------------------------------------------
 # C03
 
-def _front_state(tr, fn):
+def _front_state(tr, fn, shock_extra=()):
     """(vmShock, xiShock, TmShock) chosen by the head of solveHydroShock: the three-way
     branch in front of TiiShock, with the outcome of solve_ivp as parameters."""
     body = fn.body
@@ -323,7 +330,9 @@ def _front_state(tr, fn):
     tr.methods.append("shock__closure")
     text = tr.define("frontState", params, pre + [outer], result=result, span=br)
     tr.methods.remove("shock__closure")
-    return text.replace("(shock__closure e ", "(shock e ")
+    # the closure may depend on locals of the method (they are its leading parameters)
+    return text.replace("(shock__closure e ", "(shock e " + "".join(
+        p + " " for p in shock_extra))
 
 
 def _kappa(tr, fn, which):
@@ -430,10 +439,14 @@ def generate_c03(src_h, src_t, src_helpers):
                          booleans=["shockWave"])
     defs = _helpers_text(tr, modfuns)
     defs.append(tr.method_def("shockDE", types={"xiAndT": "R * R"}))
-    txt, _ = tr.closure_def("solveHydroShock", "shock", "shock",
-                            types={"xiAndT": "R * R"})
+    txt, used = tr.closure_def("solveHydroShock", "shock", "shock",
+                               types={"xiAndT": "R * R"})
     defs.append(txt)
-    defs.append(_front_state(tr, tr.fn["solveHydroShock"]))
+    own = [a.arg for a in pyrx_closure_args(tr.fn["solveHydroShock"], "shock")]
+    extra = [p for p in used if p not in own]
+    _expect(all(p in ("vw", "vp", "Tp") for p in extra),
+            "closure shock depends only on the arguments of solveHydroShock: %r" % extra)
+    defs.append(_front_state(tr, tr.fn["solveHydroShock"], extra))
     txt, used = tr.closure_def("solveHydroShock", "TiiShock", "TiiShock",
                                opaque={"vmShock": "R", "xiShock": "R", "TmShock": "R"})
     defs.append(txt)
